@@ -114,8 +114,28 @@ def is_library_error(exc: BaseException) -> bool:
     return isinstance(exc, AIOMySensorsError)
 
 
+PUBLIC_ERRORS = ("MissingNodeError", "MissingChildError", "TooManyNodesError", "InvalidMessageError",
+                 "UnsupportedMessageError", "PersistenceReadError", "PersistenceWriteError", "PersistenceError",
+                 "TransportReadError", "TransportFailedError", "TransportError", "AIOMySensorsError")
+
+
+def canonical_class(exc: BaseException) -> str:
+    """Name of the most specific PUBLIC library exception class the error is an instance of.
+
+    A refactor may raise new subclasses (UnknownNodeError(MissingNodeError), ...): what the properties speak
+    about is the public class, so oracles compare this name, never type(exc).__name__.
+    """
+    import aiomysensors.exceptions as lib
+
+    for cls in type(exc).__mro__:
+        if cls.__name__ in PUBLIC_ERRORS and getattr(lib, cls.__name__, None) is cls:
+            return cls.__name__
+    return type(exc).__name__
+
+
 def exc_info(exc: BaseException) -> dict[str, Any]:
-    info: dict[str, Any] = {"class": type(exc).__name__, "library": is_library_error(exc)}
+    info: dict[str, Any] = {"class": canonical_class(exc), "raw_class": type(exc).__name__,
+                            "library": is_library_error(exc)}
     for attr in ("node_id", "child_id"):
         if hasattr(exc, attr):
             info[attr] = getattr(exc, attr)
